@@ -120,6 +120,30 @@ class elementwise_operation:
         return arith_spec(self, other, op_func)
 
 
+def _make_compare_variant(opname):
+    class spec(elementwise_compare):
+        __doc__ = elementwise_compare.__doc__ + f'  (Variant with the concrete operator `operator.{opname}`.)'
+        params = dict(elementwise_compare.params, op='op:' + opname)
+    spec.__name__ = 'elementwise_compare_' + opname
+    contract('serif.vector.Vector._elementwise_compare', props=['C07', 'C06'], variant='op-' + opname)(spec)
+
+
+for _op in ('eq', 'ne', 'lt', 'le', 'gt', 'ge'):
+    _make_compare_variant(_op)
+
+
+def _make_elementwise_variant(opname):
+    class spec(elementwise_operation):
+        __doc__ = elementwise_operation.__doc__ + f'  (Variant with the concrete operator `operator.{opname}`: branches that depend on which operator is applied are explored.)'
+        params = dict(elementwise_operation.params, op_func='op:' + opname)
+    spec.__name__ = 'elementwise_operation_' + opname
+    contract('serif.vector.Vector._elementwise_operation', props=['C05', 'C03', 'C04'], variant='op-' + opname)(spec)
+
+
+for _op in ('add', 'sub', 'mul', 'truediv', 'floordiv', 'mod', 'pow'):
+    _make_elementwise_variant(_op)
+
+
 def _make_arith(dunder, opfn, note=''):
     class spec:
         params = {'self': 'vector', 'other': 'alt:vector|list_any|scalar'}
